@@ -265,6 +265,8 @@ func scenarios() []hx.Scenario {
 	// and make one worker the long tail. A fixed pseudo-random permutation
 	// (hash of the name) spreads them evenly; the set is unchanged.
 	sort.SliceStable(out, func(i, j int) bool { return nameHash(out[i].Name) < nameHash(out[j].Name) })
+	// small family, placed first
+	out = append(outerParentScenarios(), out...)
 	return out
 }
 
